@@ -129,7 +129,7 @@ func (dec *Decoder) readStringAsSafeBytes(utf16Length int) []byte {
 
 // ReadStringAsBytes reads string as bytes.
 func (dec *Decoder) ReadStringAsBytes() (data []byte) {
-	data = dec.readStringAsSafeBytes(dec.ReadInt())
+	data = dec.readStringAsSafeBytes(dec.ReadCount())
 	dec.Skip()
 	return
 }
@@ -155,7 +155,7 @@ func (dec *Decoder) readSafeString(utf16Length int) (s string) {
 
 // ReadUnsafeString reads unsafe string.
 func (dec *Decoder) ReadUnsafeString() (s string) {
-	s = dec.readUnsafeString(dec.ReadInt())
+	s = dec.readUnsafeString(dec.ReadCount())
 	if dec.head == dec.tail && dec.reader != nil {
 		// skipping the closing quote refills the buffer s points into
 		s = string(convert.ToUnsafeBytes(s))
@@ -166,7 +166,7 @@ func (dec *Decoder) ReadUnsafeString() (s string) {
 
 // ReadSafeString reads safe string.
 func (dec *Decoder) ReadSafeString() (s string) {
-	s = dec.readSafeString(dec.ReadInt())
+	s = dec.readSafeString(dec.ReadCount())
 	dec.Skip()
 	return
 }
